@@ -17,6 +17,8 @@ type ruleFn func(c *Ctx)
 
 var registry = map[string]ruleFn{}
 
+var variantTmp string
+
 func register(id string, f ruleFn) { registry[id] = f }
 
 func main() {
@@ -27,7 +29,29 @@ func main() {
 	list := flag.Bool("list", false, "list registered properties")
 	dump := flag.String("dump", "", "debug: rel/pkg:Func — print call keys and SSA of a function")
 	factsOf := flag.String("facts", "", "debug (with -dump): print branch facts at calls to this callee key")
+	variant := flag.String("variant", "", "internal (thorough tier): apply this unified diff in memory before analysing; evidence goes to a scratch directory")
 	flag.Parse()
+	if *variant != "" {
+		ov, err := buildOverlay(*repo, *variant)
+		if err != nil {
+			fmt.Println("MACHINERY-FAILURE:", err)
+			os.Exit(2)
+		}
+		loadOverlay = ov
+		tmp, err := os.MkdirTemp("", "bytomcheck-variant-verif")
+		if err != nil {
+			fmt.Println("MACHINERY-FAILURE:", err)
+			os.Exit(2)
+		}
+		variantTmp = tmp
+		if b, err := os.ReadFile(*verif + "/known_findings.json"); err == nil {
+			os.WriteFile(tmp+"/known_findings.json", b, 0o644)
+		}
+		*verif = tmp
+		*tier = "quick"
+		os.Setenv("VERIF_TIER", "quick")
+	}
+	verifDirGlobal = *verif
 	if *list {
 		ids := []string{}
 		for id := range registry {
@@ -105,6 +129,9 @@ func main() {
 		if code > worst {
 			worst = code
 		}
+	}
+	if variantTmp != "" {
+		os.RemoveAll(variantTmp)
 	}
 	os.Exit(worst)
 }
